@@ -682,7 +682,7 @@ where
                 .try_into()
                 .unwrap();
             let (start, end) = (a.min(b), a.max(b));
-            let index = rng.gen_range(0..start);
+            let index = rng.gen_range(0..=start);
             f::translocate_slice(solution, start..end, index);
         }
         Ok(())
